@@ -143,4 +143,40 @@ def Op.scope : Op → Bool
   | .new _ name _ => !(quote name).contains dot && nameEsc (quote name)
   | _ => true
 
+/-! ### histories with interleaved lookups
+
+A lookup (`handle[path…][key]`, any string key: a name, a dotted id, a relative dotted path) is an *observation*:
+it returns something and leaves the store alone.  `HOp` is the alphabet of what a client program does, edits and
+lookups in any order; `runH` runs such a history; `edits` forgets the lookups. -/
+
+inductive HOp where
+  | op (o : Op)
+  | lookup (h : Nat) (path : List Str) (key : Str)
+deriving Repr, Inhabited
+
+/-- the answer of `handles[h][path…][key]` in a store -/
+def lookupAt (s : State) (h : Nat) (path : List Str) (key : Str) : Except Err Found := do
+  let o ← s.get h
+  let c ← navigate path o
+  lookup c key
+
+def stepH (s : State) : HOp → State
+  | .op o => step s o
+  | .lookup _ _ _ => s
+
+def runH (s : State) (hs : List HOp) : State := hs.foldl stepH s
+
+/-- what a history answers: every lookup, in order, answered in the store reached by then (this is what the
+    driver prints for the lookup steps) -/
+def answers (s : State) : List HOp → List (Except Err Found)
+  | [] => []
+  | .op o :: t => answers (step s o) t
+  | .lookup h p k :: t => lookupAt s h p k :: answers s t
+
+/-- the edits of a history, lookups forgotten -/
+def edits : List HOp → List Op
+  | [] => []
+  | .op o :: t => o :: edits t
+  | .lookup _ _ _ :: t => edits t
+
 end Pydap.Tree
